@@ -21,7 +21,8 @@
 //!       ` v=ok|rejected` (the real verifier on that proof; the model: `refVerify` on `refProve`'s bytes), or
 //!       `panic` / `err:<kind>`. The Lean driver runs the executable reference prover `refProve`
 //!       (Winter/Model/RefProver.lean) on the same description, trace and options and must print the SAME
-//!       bytes (modelled: f64 with Rp64_256 / RpJive64_256, f62 with Rp62_248, no auxiliary segment).
+//!       bytes (modelled: f64 with Rp64_256 / RpJive64_256, f62 with Rp62_248, with or without auxiliary segment,
+//!       no Lagrange kernel column).
 //!       Oracle: for an admissible configuration and a trace the reference predicate accepts, proving
 //!       succeeds and the real `verify` accepts the proof (before and after the byte round trip).
 //!
@@ -299,7 +300,7 @@ fn exec_refp(t: &[&str]) -> Outcome {
         Some(tr) => tr,
         None => return Outcome::ok("bad-op"),
     };
-    if !op.hash.compatible(op.field) || op.desc.validate().is_err() || op.desc.aux.is_some() {
+    if !op.hash.compatible(op.field) || op.desc.validate().is_err() {
         return Outcome::ok("bad-op");
     }
     if trace.len() != op.desc.width || trace.iter().any(|c| c.len() != op.desc.trace_len) {
@@ -329,6 +330,10 @@ fn exec_refp(t: &[&str]) -> Outcome {
             return o;
         },
         Ok(out) => match out.proof {
+            _ if matches!(out.aux_check, Some(Err(_))) => {
+                o.out = "gen-invalid".into();
+                return o.fail("c01.harness.gen-invalid", "auxiliary segment violates its constraints");
+            },
             Err(e) => {
                 o.out = format!("err:{}", prover_error_kind(&e));
                 if adm {
@@ -427,7 +432,30 @@ fn refp_descs(rng: &mut Rng, count: usize, max_log_len: u32) -> Vec<AirDesc> {
             v.push(d);
         }
     }
-    v.into_iter().filter(|d| d.validate().is_ok() && d.aux.is_none()).take(count).collect()
+    // a third of the configurations with an auxiliary segment (no Lagrange kernel column): the rich fixed one
+    // (two random elements, periodic value and both main rows in the constraints, running sum, pointwise image,
+    // aux single and sequence assertions), running products, and random ones (incl. the quotient rule that divides)
+    let bud_aux = Budget { aux_pct: 100, lagrange_pct: 0, max_width: 3, ..bud.clone() };
+    let mut auxv: Vec<AirDesc> = vec![wide_desc(2, 8, 2, 1, false), feature_desc(8, 2, 2, 1, vec![3, 5, 3, 5], true, 2, false, 0), wide_desc(3, 16, 2, 2, false), feature_desc(16, 2, 4, 0, vec![1, 2], true, 1, false, 1)];
+    let mut guard = 0;
+    while auxv.len() < count / 3 + 1 && guard < 40 * count {
+        guard += 1;
+        let d = random_desc(rng, &bud_aux);
+        if d.aux.is_some() && !d.has_lagrange() && d.validate().is_ok() {
+            auxv.push(d);
+        }
+    }
+    let mut out: Vec<AirDesc> = vec![];
+    let mut it_main = v.into_iter().filter(|d| d.validate().is_ok() && d.aux.is_none());
+    let mut it_aux = auxv.into_iter().filter(|d| d.validate().is_ok() && !d.has_lagrange());
+    while out.len() < count {
+        let next = if out.len() % 3 == 2 { it_aux.next().or_else(|| it_main.next()) } else { it_main.next().or_else(|| it_aux.next()) };
+        match next {
+            Some(d) => out.push(d),
+            None => break,
+        }
+    }
+    out
 }
 
 /// the `refp` op lines: descriptions x option sets (blowups, folding factors, remainder degrees, grinding,
@@ -447,20 +475,24 @@ fn refp_ops(rng: &mut Rng, tier: Tier, emit: &mut dyn FnMut(String)) {
             _ => (FieldId::F64, HashId::Rp64_256),
         };
         // the generators of field-specific material (degenerate columns) depend on the field
-        let d = if i >= 16 && i % 10 >= 8 {
+        let d = if i >= 16 && i % 10 >= 8 && d.aux.is_none() {
             let b = Budget { min_log_len: 3, max_log_len: max_log, max_width: 3, max_degree: 2, aux_pct: 0, lagrange_pct: 0, exemptions: true, degenerate: false, sequences: true };
             let x = random_desc_for(rng, &b, field);
             if x.aux.is_none() && x.validate().is_ok() { x } else { d.clone() }
         } else {
             d.clone()
         };
-        let want = sizes[i % sizes.len()];
+        let want = if d.aux.is_some() && quick { 16 } else { sizes[i % sizes.len()] };
         let lim = want.max(d.trace_len * d.min_blowup());
         let mut o = random_opts(rng, &d, field, lim);
         // few queries (the openings are the cheap part), grinding on a good third, every extension degree
         o.queries = o.queries.min(1 + (i % 7));
         o.grinding = if i % 3 == 0 { 1 + (i as u32 / 3) % 6 } else { 0 };
-        o.ext = 1 + (i % 3) as u8;
+        // every extension degree with and without auxiliary segment (the auxiliary lines sit at i % 3 == 2)
+        o.ext = 1 + ((i / 3 + i) % 3) as u8;
+        if d.aux.is_some() && field == FieldId::F62 && quick {
+            o.ext = 1 + ((i / 3) % 2) as u8;
+        }
         if !field.supports_ext(o.ext) {
             o.ext = 1;
         }
